@@ -68,6 +68,40 @@ def dirty_probes(ctx, stg):
             if probs:
                 failures.append({"obligation": "direct-oracle:C10:dirty-probe", "command": label, "argv": argv,
                                  "exit": p.returncode, "problems": probs, "stderr": p.stderr[-300:]})
+    # a push whose first patch needs the work-tree merge (the file was renamed underneath) and
+    # whose second patch touches a locally modified file: the command must fail AND the roll-back of
+    # the merged content must leave the local modification alone
+    for argv in (["push", "--keep", "q1", "q2"], ["push", "--keep", "-a"], ["float", "--keep", "q1", "q2"]):
+        with repo.Scratch("c10r") as r:
+            r.init_repo()
+            r.write("a.txt", "1\n2\n3\n4\n5\n6\n7\n8\n")
+            r.write("notes.txt", "tracked notes\n")
+            r.git(["add", "-A"])
+            r.git(["commit", "-q", "-m", "files"])
+            r.stg(stg, ["init"])
+            r.stg(stg, ["new", "-m", "q1", "q1"])
+            r.write("a.txt", "1\n2\n3\n4\n5\n6\n7\nEIGHT\n")
+            r.git(["add", "-A"])
+            r.stg(stg, ["refresh"])
+            r.stg(stg, ["new", "-m", "q2", "q2"])
+            r.write("notes.txt", "tracked notes\nfrom q2\n")
+            r.git(["add", "-A"])
+            r.stg(stg, ["refresh"])
+            r.stg(stg, ["pop", "-a"])
+            r.stg(stg, ["new", "-m", "ren", "ren"])
+            r.git(["mv", "a.txt", "b.txt"])
+            r.stg(stg, ["refresh"])
+            r.write("notes.txt", "tracked notes\nPRECIOUS unstaged edit\n")
+            p = r.stg(stg, argv)
+            n += 1
+            try:
+                kept = "PRECIOUS unstaged edit" in r.read("notes.txt")
+            except OSError:
+                kept = False
+            if not kept:
+                failures.append({"obligation": "direct-oracle:C10:dirty-probe", "command": "rename + " + " ".join(argv),
+                                 "argv": argv, "exit": p.returncode,
+                                 "problems": ["the unstaged edit of notes.txt is gone"], "stderr": p.stderr[-300:]})
     ctx.obligations += 1
     if not failures:
         ctx.discharged += 1
